@@ -435,6 +435,28 @@ fn operand_json<'tcx>(cx: &mut Cx<'tcx>, env: TypingEnv<'tcx>, body: &Body<'tcx>
             }
             if let mir::Const::Unevaluated(u, _) = c.const_ {
                 k.str("path", &qname(tcx, u.def));
+                // evaluated form of promoted / named constants that are not plain scalars (e.g. `&FatType::Fat32`)
+                if scalar_of_const(tcx, env, &c.const_).is_none() {
+                    if let Ok(cv) = c.const_.eval(tcx, env, c.span) {
+                        // `&T` pointing into a constant allocation: dump the pointee bytes (small values only)
+                        if let (mir::ConstValue::Scalar(rustc_middle::mir::interpret::Scalar::Ptr(ptr, _)), ty::Ref(_, inner, _)) =
+                            (cv, ty.kind())
+                        {
+                            let (prov, off) = ptr.prov_and_relative_offset();
+                            if let rustc_middle::mir::interpret::GlobalAlloc::Memory(a) = tcx.global_alloc(prov.alloc_id()) {
+                                let alloc = a.inner();
+                                let len = alloc.len();
+                                let start = off.bytes() as usize;
+                                if len <= 64 && start <= len {
+                                    let bytes = alloc.inspect_with_uninit_and_ptr_outside_interpreter(start..len);
+                                    let bs: Vec<String> = bytes.iter().map(|b| b.to_string()).collect();
+                                    k.raw("ev_bytes", &format!("[{}]", bs.join(",")));
+                                    k.num("ev_ty", cx.ty(*inner) as i128);
+                                }
+                            }
+                        }
+                    }
+                }
             }
             j.raw("k", &k.finish());
         }
